@@ -99,7 +99,6 @@ var otherCells = []string{
 	"TRANSFORM/map/seq", "TRANSFORM/map/set", // evalTransform: map argument, named scope variable
 	"TRANSFORM/mapdot/single", // evalTransform: map argument, '.' scope variable
 	"TRANSFORM/scalar/single", // evalTransform: single value
-	"TRANSFORM/emptylist/seq", "TRANSFORM/emptyset/set",
 }
 
 // notGenerated: declared by the evaluator but outside the property statement, so never generated
